@@ -7,7 +7,7 @@ import Hv.Patch.Ops
     ops:   case N
            parse HEX                         → ok TREE | err CLASS
            ap BODY COND OP…                  → out HEX wf=0/1 | err CLASS
-           pf STORED CREATE SEED COND OP…    → st=N absent|other|b:HEX
+           pf STORED CREATE SEED COND OP…    → st=N absent|other|b:HEX wf=0/1 new=HEX|-
     COND = `-` | op:pathhex:thresholdhex     OP = kind:pathhex:valuehex     empty hex = `-`/""
 
     A reply is annotated `#F:<id>` where the model's own answer violates the Spec:
@@ -143,7 +143,17 @@ def step (cfg : Cfg) (mg : Magic) (_ : Unit) (line : String) : Unit × String :=
     match storedOf sh, unhex seedh, parseCond ch, parseOps opss with
     | some st, some seed, some cond, some ops =>
       let (s, st') := patchFields cfg mg st ops cond (cr == "1") seed
-      ((), s!"st={s.code} {showStored st'}")
+      -- wf: does the parser accept what is stored behind the two prefix bytes;
+      -- new: `PatchFieldsResult.NewMsgpack` (the unwrapped body, only on PATCHED / CREATED)
+      let w := match st' with
+        | .bytes (_ :: _ :: body) => wf body
+        | _ => false
+      let echo := match s, st' with
+        | .patched, .bytes (_ :: _ :: body) => hexOrDash body
+        | .created, .bytes (_ :: _ :: body) => hexOrDash body
+        | _, _ => "-"
+      let f1 := if (s == .patched || s == .created) && !w then "\t#F:C13-unvalidated-op-value" else ""
+      ((), s!"st={s.code} {showStored st'} wf={if w then 1 else 0} new={echo}{f1}")
     | _, _, _, _ => ((), "bad-op")
   | _ => ((), "bad-op")
 
